@@ -91,6 +91,10 @@ Definition send_force (op : Z) (st : mstate) (caller to fund : Z) : mstate :=
   if sends_value op then transfer_force st caller to fund else st.
 Definition send_callvalue (op : Z) (st : mstate) (caller to fund : Z) : option mstate :=
   if send_cond op st caller fund then Some (send_force op st caller to fund) else None.
+(* the condition that joins the main path of SEVM.call: that of send_callvalue, unless the call
+   of an account without code fails at the depth limit (nothing is sent then) *)
+Definition main_cond (op : Z) (st : mstate) (caller to fund depth : Z) : bool :=
+  if in_code st to || unknown_call_ok depth then send_cond op st caller fund else true.
 
 Definition m_sstore (st : mstate) (a k v : Z) : mstate :=
   mkM (m_code st) (sstore_of (m_storage st) a k v) (m_transient st) (m_balance st) (m_cnt st).
@@ -204,14 +208,18 @@ Definition m_call (kd : ckind) (to0 v0 rsz : Z) (c : fctx) (st : mstate) (ob : l
                map (addlog lg) (continue st3 (m_after_call ob (if success then 1 else 0) l rsz data) l))
             (sub_frame msg st1 run_callee)
       end
-    else
+    else if unknown_call_ok (c_depth c) then
       (* call_unknown, non-existing account: exit code 1, then the transfer *)
       match send_callvalue op st pranked_caller to fund with
       | None => []
       | Some st1 =>
           let l := Some (false, false, []) in
           map (addlog [LFrame msg; LEnd (FOk [])]) (continue st1 (m_after_call ob 1 l rsz []) l)
-      end in
+      end
+    else
+      (* ... unless the depth limit is exceeded: exit code 0, nothing is sent, empty return data *)
+      let l := Some (false, false, []) in
+      continue st (m_after_call ob 0 l rsz []) l in
   (* a value-bearing CALL in a static context raises WriteInStaticContext before anything else *)
   if call_static_value_check op (c_static c) fund then [(FHalt, st, [LEnd FHalt])]
   else main ++ fail_branch.
